@@ -283,11 +283,18 @@ type lstate struct {
 	env  map[types.Object]*lval
 	flds map[string]*lval
 	pend []lobl // obligations of this path that could not be proved locally (non-root functions)
+	memo map[*ast.CallExpr]*lval // value of an in-repo call that was interpreted (forking) ahead of its expression
 }
 
 func (s *lstate) clone() *lstate {
 	n := &lstate{cons: s.cons[:len(s.cons):len(s.cons)], env: make(map[types.Object]*lval, len(s.env)), flds: make(map[string]*lval, len(s.flds)),
 		pend: s.pend[:len(s.pend):len(s.pend)]}
+	if len(s.memo) > 0 {
+		n.memo = make(map[*ast.CallExpr]*lval, len(s.memo))
+		for k, v := range s.memo {
+			n.memo[k] = v
+		}
+	}
 	for k, v := range s.env {
 		n.env[k] = v
 	}
